@@ -14,9 +14,9 @@
    This file contains only pinned statements, each closed by [exact] of a lemma proved in
    Proofs/, followed by Print Assumptions; and Examples (non-vacuity, monitor rejections). *)
 From SC Require Import Lib.Prelude Lib.Int Lib.Host Model.Rwa Model.RwaCompliance Model.RwaIdentity
-  Run.C04Compliance Run.C04Identity Run.C04
+  Run.C04Compliance Run.C04Identity Run.C04Stack Run.C04
   Proofs.Rwa Proofs.RwaPrefix Proofs.C04Monitor Proofs.RwaCompliance Proofs.RwaIdentity Proofs.C04Composed
-  Proofs.C04Examples.
+  Proofs.C04Stack Proofs.C04Examples.
 
 (* ------------------------------------------------------------------------------------------ *)
 (* GATES.  In ANY state (so in particular in every reachable one), for any authorisation set and
@@ -341,6 +341,54 @@ Proof. exact gates_composed. Qed.
 Print Assumptions C04_gates_composed.
 
 (* ------------------------------------------------------------------------------------------ *)
+(* THE WHOLE STACK (Run/C04Stack.v).  [sstep] is the composition actually run against the real
+   contracts: a token step whose collaborator answers are computed by the compliance model from
+   its own state [cst] (modules [deny] refusing) and by the identity model from the registry state
+   [w] observed just before the call, and whose questions / notifications are then fed through
+   the compliance model with the token as caller (a rejected notification rolls everything back).
+
+   THE COMPOSED GATE: in any states satisfying the two invariants (hence in every reachable one), a
+   transfer / transfer_from that succeeds in the stack found the token not paused, nobody frozen,
+   the amount within the unfrozen balance, BOTH PARTIES VERIFIED PER THE REGISTRY, NO module
+   registered for CanTransfer refusing, the token bound to the compliance contract; every module
+   registered for CanTransfer was asked once and every module registered for Transferred notified
+   once, in order, with the exact parties, amount and token.  Likewise mint. *)
+Theorem C04_stack_gate : forall (hc : hostcfg) (cf : ccfg) (univ : list addr) (tok : addr)
+    (s : state) (cst : cstate) (o : op) (au deny : list addr) (w : iworld) (ss' : sstate) (r : ret),
+  (forall a, 0 <= frozen s a <= bal s a) ->
+  ((forall h, NoDup (mods cst h) /\ Z.of_nat (length (mods cst h)) <= max_modules cf) /\ NoDup (bound cst)) ->
+  sstep hc cf univ tok (mkSS s cst) (STok o au deny w) = (ss', Ok r) ->
+  match o with
+  | Transfer from to amt | TransferFrom _ from to amt =>
+      paused s = false /\ aflag s from = false /\ aflag s to = false /\
+      0 <= amt <= bal s from - frozen s from /\
+      verified w from = true /\ verified w to = true /\
+      (forall m, In m (mods cst HCanTransfer) -> ~ In m deny) /\
+      In tok (bound cst) /\
+      mlog (ss_cmp ss') = map (fun m => (m, MCanTransfer from to amt tok)) (mods cst HCanTransfer)
+                          ++ map (fun m => (m, MOnTransfer from to amt tok)) (mods cst HTransferred)
+  | Mint to amt _ =>
+      0 <= amt /\ verified w to = true /\
+      (forall m, In m (mods cst HCanCreate) -> ~ In m deny) /\
+      In tok (bound cst) /\
+      mlog (ss_cmp ss') = map (fun m => (m, MCanCreate to amt tok)) (mods cst HCanCreate)
+                          ++ map (fun m => (m, MOnCreated to amt tok)) (mods cst HCreated)
+  | _ => True
+  end.
+Proof. exact stack_gate. Qed.
+Print Assumptions C04_stack_gate.
+
+(* The monitor of the whole stack (Run/C04Stack.v: the composed gate above over observations -
+   token state, compliance module lists and binding, registry state, module log - plus the token
+   monitor's account / pause / link clauses and the compliance monitor for administrative calls)
+   accepts every run of the composition. *)
+Theorem C04_stack_monitor_accepts_model : forall (hc : hostcfg) (cf : ccfg) (univ : list addr) (tok : addr) (cs : list scall),
+  0 <= max_modules cf ->
+  check (observe_stack_model hc cf univ tok cs) = (0%N, 0%N, 0%N).
+Proof. exact check_stack_accepts_model. Qed.
+Print Assumptions C04_stack_monitor_accepts_model.
+
+(* ------------------------------------------------------------------------------------------ *)
 (* Non-vacuity: on a non-trivial reachable state (0 holds 100 / 80 frozen / address-frozen,
    1 holds 40 / 15 frozen) a transfer through all gates succeeds, a forced transfer unfreezes
    exactly 30 = 50 - 20 free, a burn within the free part unfreezes nothing, and a recovery
@@ -480,4 +528,20 @@ Example C04_compliance_monitor_rejects_lapsed_state :
   snd (fst (check (cset_obs (mkCObs [[21; 20; 22]%N; []; []; [21; 20; 22]%N; []] [false; false] []) ok))) = 8%N /\ (* a binding gone *)
   check (observe_identity_model [mkIC (IAdvance 4000000) (iex_world []); mkIC ILinks (iex_world [])]) = (0%N, 0%N, 0%N) /\
   snd (fst (check (iset_out (Ok (ILinked false true)) (observe_identity_model [mkIC ILinks (iex_world [])])))) = 1%N.
+Proof. vm_compute. repeat split; reflexivity. Qed.
+
+(* The whole stack: a transfer 0 -> 1 succeeds, asks modules 21, 20 and notifies module 22; with the
+   sender's claim revoked (or a registered module refusing, or the token unbound) it fails; and the
+   monitor rejects a trace in which such a transfer nevertheless went through (the behaviour of a
+   token that no longer checks the sender's identity, or ignores a module, end to end). *)
+Example C04_stack_nonvacuous :
+  let good := sx_trace (sx_history ++ [STok (Transfer 0%N 1%N 10) [0%N] [] sx_w]) in
+  let revoked := sx_world [mkClaim 40%N 1 1 40%N false] in
+  check good = (0%N, 0%N, 0%N) /\
+  snd (sstep ex_cfg cex_cfg sx_univ sx_tok (fold_left (fun ss c => fst (sstep ex_cfg cex_cfg sx_univ sx_tok ss c)) sx_history sinit)
+         (STok (Transfer 0%N 1%N 10) [0%N] [] sx_w)) = Ok None /\
+  check (sx_trace (sx_history ++ [STok (Transfer 0%N 1%N 10) [0%N] [] revoked])) = (0%N, 0%N, 0%N) /\
+  snd (fst (check (sgraft good (sx_trace (sx_history ++ [STok (Transfer 0%N 1%N 10) [0%N] [] revoked]))))) = 8%N /\
+  snd (fst (check (sgraft good (sx_trace (sx_history ++ [STok (Transfer 0%N 1%N 10) [0%N] [20%N] sx_w]))))) = 8%N /\
+  snd (fst (check (sgraft good (sx_trace (sx_history ++ [STok (Transfer 1%N 0%N 10) [0%N] [] sx_w]))))) = 8%N.
 Proof. vm_compute. repeat split; reflexivity. Qed.
